@@ -172,6 +172,27 @@ def gen_release(tier: str, rng: random.Random) -> Iterator[Dict[str, Any]]:
                     steps.append({"s": "dt", "d": 0.5})
                     yield h2_script(steps, apps, "h2/release/%s/%d/%d/%s" % (where, W, nstreams, cause),
                                     settings={4: W}, autoack=False, maxchunk=chunk)
+    # HTTP/2 with wide-open windows and a client that stops reading: the send task waits in the transport's
+    # drain, the application behind it on the stream buffer; then each cause
+    for total, chunk in ((600000, 16384), (600000, 100000)):
+        for cause in ("resume", "eof", "eof-then-resume", "reset", "shutdown", "rst", "rst-then-resume", "expire"):
+            steps = [{"s": "h2", "op": "wupd", "stream": 0, "n": 2000000},
+                     build.h2_headers(1, 1, "GET", toks=[["/hp", "/hp"]]),
+                     {"s": "dt", "d": 0.01}, {"s": "pause"},
+                     {"s": "go", "app": "1", "n": 1}, {"s": "dt", "d": 0.01}]
+            if cause.startswith("eof"):
+                steps.append({"s": "eof"})
+            elif cause.startswith("rst"):
+                steps.append({"s": "h2", "op": "rst", "stream": 1})
+            elif cause == "expire":
+                steps.append({"s": "dt", "d": 6.0})
+            elif cause != "resume":
+                steps.append({"s": cause})
+            if cause.endswith("resume"):
+                steps += [{"s": "dt", "d": 0.01}, {"s": "resume"}]
+            steps.append({"s": "dt", "d": 0.5})
+            yield h2_script(steps, {"1": [["gate"]] + big_resp(1, total, chunk)}, "h2/release/paused-transport/%d/%s" % (chunk, cause),
+                            settings={4: 2000000}, maxchunk=chunk)
     # HTTP/1: transport paused while the application writes, then released by each cause
     from .gen_h1 import base_script
     for total, chunk in ((400000, 50000), (10, 10)):
@@ -221,6 +242,20 @@ def gen_h2_basic(tier: str, rng: random.Random) -> Iterator[Dict[str, Any]]:
                         if s_["s"] == "h2":
                             s_["cuts"] = cuts
                 yield h2_script(st2, {"*": prog}, "h2/c01/%d/%d/%s" % (n, blen, timing), bodies={"1": [1, blen]})
+    # upload framings whose flow-controlled size differs from their payload: many small frames, padding
+    # (every padded frame costs payload + padding + 1), with and without an application that keeps up
+    for frame, pad, total in ((100, 255, 40000), (1, 0, 300), (1000, None, 150000), (16384, 200, 100000)):
+        for timing in ("read", "asleep"):
+            if tier == "quick" and timing == "asleep" and frame != 100:
+                continue
+            steps = [build.h2_headers(1, 1, "POST", toks=[["/framed", "/framed"]], end=False, total=total),
+                     {"s": "h2", "op": "data", "stream": 1, "pat": [1, 0, total], "end": True, "frame": frame, "pad": pad}]
+            prog = build.simple_resp_program(chunks=[3]) if timing == "read" else [["gate"]] + build.simple_resp_program(chunks=[3])
+            if timing == "asleep":
+                steps.append({"s": "go", "app": "1", "n": 1})
+            steps.append({"s": "dt", "d": 0.05})
+            yield h2_script(steps, {"*": prog}, "h2/c01/framed/%d/%s/%d/%s" % (frame, pad, total, timing),
+                            bodies={"1": [1, total]})
     # responses: statuses x chunkings x HEAD, larger than window / frame
     from .gen_h1 import CHUNKINGS, STATUSES
     combos = [(st, ci, m) for st in STATUSES for ci in range(len(CHUNKINGS)) for m in ("GET", "HEAD")]
@@ -273,6 +308,18 @@ def gen_unusual(tier: str, rng: random.Random) -> Iterator[Dict[str, Any]]:
                     apps={"1": build.simple_resp_program(chunks=[2], read_first=False)[:-1] + [["return"]]})
         sc["bodies"] = {"1": [1, 5]}
         yield sc
+    # ... as much of it as the windows allow, then an upload on a new stream: what the server discards
+    # must be credited back like what it delivers
+    mid = [build.h2_headers(1, 3, "POST", toks=[["/late", "/late"]], end=False, total=70000),
+           {"s": "dt", "d": 0.05},
+           {"s": "h2", "op": "data", "stream": 3, "pat": [1, 0, 65535], "end": False},
+           {"s": "dt", "d": 0.05},
+           build.h2_headers(2, 5, "POST", toks=[["/up", "/up"]], end=False, total=3000),
+           {"s": "h2", "op": "data", "stream": 5, "pat": [2, 0, 3000], "end": True}]
+    sc = script(mid, "late-data-fills-window",
+                apps={"1": build.simple_resp_program(chunks=[2], read_first=False)[:-1] + [["return"]]})
+    sc["bodies"] = {"1": [1, 70000], "2": [2, 3000]}
+    yield sc
     # frames for a stream whose response has completed while the client's side is still open
     for frame in ("wupd", "rst", "prio", "wupd-then-data", "trailers"):
         mid = [build.h2_headers(1, 3, "POST", toks=[["/half", "/half"]], end=False, total=5),
@@ -362,6 +409,33 @@ def gen_h2_faults(tier: str, rng: random.Random) -> Iterator[Dict[str, Any]]:
                 steps += base[pos:]
                 steps.append({"s": "dt", "d": 0.1})
                 yield h2_script(steps, apps, "h2/faults/%s@%d/%s" % (end, cut, fault), bodies={"1": [1, 6], "2": [2, 0]})
+    # one stream stays in progress for longer than the keep-alive timeout while its sibling ends in every
+    # way (completes, fails, is reset by the client before / while / after answering, answers a reset
+    # stream late); then the last stream completes and the idle rule applies from that moment
+    nops1 = len(std_ops(1, chunks))
+    for how in ("completes", "raises", "returns-early", "rst-then-completes", "rst-then-returns", "rst-mid-response",
+                "completes-then-rst"):
+        for ka in (5.0, 0.5):
+            end = {"raises": "raise", "returns-early": "return", "rst-then-returns": "return"}.get(how, "disc")
+            cut = {"raises": 2, "returns-early": 1, "rst-then-returns": 1}.get(how, nops1)
+            apps = {"1": gated_app(std_ops(1, chunks)[:cut], end), "2": gated_app(std_ops(2, chunks), "disc")}
+            steps = [build.h2_headers(1, 1, "POST", toks=[["/b1", "/b1"]], end=False, total=6),
+                     build.h2_headers(2, 3, "GET", toks=[["/b2", "/b2"]]),
+                     {"s": "h2", "op": "data", "stream": 1, "pat": [1, 0, 6], "end": True},
+                     {"s": "go", "app": "2", "n": 2}]
+            if how.startswith("rst-then"):
+                steps.append({"s": "h2", "op": "rst", "stream": 1})
+            if how == "rst-mid-response":
+                steps += [{"s": "go", "app": "1", "n": 2}, {"s": "h2", "op": "rst", "stream": 1}]
+            steps += [{"s": "go", "app": "1", "n": 1} for _ in range(cut + 2)]
+            if how == "completes-then-rst":
+                steps.append({"s": "h2", "op": "rst", "stream": 1})
+            # stream 3 is still in progress: nothing may close the connection
+            steps += [{"s": "dt", "d": ka - 0.001}, {"s": "dt", "d": 0.001}, {"s": "dt", "d": 2 * ka}]
+            steps += [{"s": "go", "app": "2", "n": 1} for _ in range(nops1 + 1)]
+            steps += [{"s": "dt", "d": ka - 0.001}, {"s": "dt", "d": 0.001}, {"s": "dt", "d": 1.0}]
+            yield h2_script(steps, apps, "h2/busy-sibling/%s/%s" % (how, ka), bodies={"1": [1, 6], "2": [2, 0]},
+                            cfg={"keep_alive_timeout": ka})
     # idle expiry with no stream, after streams closed; prior-knowledge cleartext connection
     for carrier in ("h2", "h2prior"):
         for history in ("fresh", "after-stream"):
